@@ -71,6 +71,15 @@ Theorem C04_block_product_2x2 : forall (R : StarRing) (A B C D E F G H : linop R
                   (hstack (lsum (comp C E) (comp D G)) (lsum (comp C F) (comp D H)))) x i.
 Proof. exact block_product_2x2. Qed.
 Print Assumptions C04_block_product_2x2.
+(* columns of any height and rows of any width (induction over the list of blocks): [A1; ...; Z] C = [A1 C; ...; Z C], A [B1, ..., Z] = [A B1, ..., A Z] *)
+Theorem C04_block_column_any_height : forall (R : StarRing) (l : list (linop R)) (z C : linop R), wf C ->
+  opeq (comp (vstack_list R l z) C) (vstack_list R (map (fun A => comp A C) l) (comp z C)).
+Proof. exact comp_vstack_list. Qed.
+Print Assumptions C04_block_column_any_height.
+Theorem C04_block_row_any_width : forall (R : StarRing) (A : linop R) (l : list (linop R)) (z : linop R), wf A ->
+  opeq (comp A (hstack_list R l z)) (hstack_list R (map (fun B => comp A B) l) (comp A z)).
+Proof. exact comp_hstack_list. Qed.
+Print Assumptions C04_block_row_any_width.
 (* LinearOperatorMatrix.from_diagonal: the block-diagonal operator equals the matrix with zero operators off the diagonal *)
 Theorem C04_block_diagonal : forall (R : StarRing) (A B : linop R),
   opeq (bdiag A B) (vstack (hstack A (zeroop (R:=R) (dom B) (ran A))) (hstack (zeroop (R:=R) (dom A) (ran B)) B)).
